@@ -694,3 +694,61 @@ def check_extent_loops(run, A, module_prefixes, rule='R-ITER'):
     run.count('loops over the extent of an array examined for using their index', n)
     run.count('such loops that ignore their index but are dormant (entered only through a switch that is off everywhere)', n_dormant)
     return n
+
+
+FLOAT_PRODUCING = ('numpy.mean', 'numpy.average', 'numpy.divide', 'numpy.true_divide', 'numpy.sqrt', 'numpy.var', 'numpy.std', 'numpy.exp', 'numpy.log', 'numpy.log10',
+                   'numpy.median', 'numpy.percentile', 'numpy.quantile', 'numpy.nanmean', 'numpy.reciprocal', 'numpy.arctan2', 'numpy.linalg.norm')
+LIKE_MAKERS = ('numpy.empty_like', 'numpy.zeros_like', 'numpy.ones_like', 'numpy.full_like')
+
+
+def check_result_buffers(run, A, module_prefixes, rule='R-DTYPE'):
+    """a fractional result (mean, quotient, root, ...) written with `out=` / stored by index into a buffer made by `empty_like(data)` / `zeros_like(data)` WITHOUT a dtype takes the
+    dtype of the data: for integer-typed input (binary int8 masks are what the aligners' own examples use) the values are truncated towards zero, silently.
+    Judged: the buffer's prototype is not decided floating by the abstract interpreter (a parameter, a copy of one, a selection that includes one)."""
+    from .walk import call_arg
+    n = 0
+    for fn in A.prog.all_funcs():
+        if not any(fn.mod.name == p.rstrip('.') or fn.mod.name.startswith(p) for p in module_prefixes):
+            continue
+        g = A.graphs.get(fn)
+        ctx = None
+
+        def like_proto(buf):
+            b = strip_views(buf)
+            for _ in range(8):
+                if isinstance(b, T) and b.op in ('mu', 'store', 'iop'):
+                    b = strip_views(b.args[0] if b.op != 'iop' else b.args[1])
+                else:
+                    break
+            if isinstance(b, T) and is_call_to(b, *LIKE_MAKERS) and call_arg(b, None, 'dtype') is None and (len(call_parts(b)[1]) < 2 or not is_call_to(b, 'numpy.empty_like', 'numpy.zeros_like', 'numpy.ones_like')):
+                return b, call_arg(b, 0)
+            return None, None
+        cands = []
+        for e in g.events:
+            if e.kind == 'call' and is_call_to(e.term, *FLOAT_PRODUCING):
+                out = call_arg(e.term, None, 'out')
+                if out is not None:
+                    cands.append((e.term, out, 'out='))
+            elif e.kind == 'store' and e.term.op == 'store' and is_call_to(strip_views(e.term.args[2]), *FLOAT_PRODUCING):
+                cands.append((strip_views(e.term.args[2]), e.term.args[0], 'indexed store'))
+        for call, buf, how in cands:
+            maker, proto = like_proto(buf)
+            if maker is None or proto is None:
+                continue
+            n += 1
+            try:
+                if ctx is None:
+                    ctx = A.ev.entry(fn)
+                v = A.ev.eval(proto, ctx)
+                dt = getattr(v, 'dtype', None)
+            except Exception:
+                dt = None
+            if dt in ('real', 'complex'):
+                run.ok(rule, f'{fn.qual.split("::")[1]}: `{norm_stmt_of(call.node)}` into a buffer of floating type', fn.loc(call.node), f'prototype decided {dt}')
+                continue
+            run.violation(rule, f'{fn.qual.split("::")[1]}: a fractional result is stored in a floating-point buffer', fn.loc(call.node),
+                          f'`{norm_stmt_of(call.node)}` ({how}) writes into `{norm_stmt_of(maker.node)}`, which takes the dtype of its prototype; the prototype is not decided floating '
+                          f'(dtype: {dt or "that of the caller data"}): for an integer-typed input the result is truncated towards zero without a warning',
+                          construct=f'{rule}::{fn.qual}::{call_parts(call)[0]}::{how}')
+    run.count('fractional results written into *_like buffers', n)
+    return n
